@@ -138,9 +138,17 @@ def history_problems(name):
     return problems
 
 
+def _safe_history_problems(name):
+    try:
+        return history_problems(name)
+    except Exception as e:  # noqa
+        import traceback
+        return ["call history %s raised %s: %s (%s)" % (name, type(e).__name__, e, traceback.format_exc().strip().split("\n")[-3].strip()[:120])]
+
+
 def run_history(res, name):
     with shims.real_code():
-        problems = history_problems(name)
+        problems = _safe_history_problems(name)
     res["paths"] = 1
     res["decisions"] = 1
     res["reach"] = 1
@@ -157,7 +165,7 @@ _replay_calls = replay
 
 def replay(args):  # noqa: F811
     if "history" in args:
-        p = history_problems(args["history"])
+        p = _safe_history_problems(args["history"])
         if p:
             print(p[0][:1500])
         return bool(p)
@@ -222,7 +230,50 @@ def instantiation_property_problems():
     return problems
 
 
+MIN_IRI_DOC = ('<http://a.org/x1> <http://www.w3.org/1999/02/22-rdf-syntax-ns#type> <http://ex.org/C> .\n'
+               '<urn:b:y2> <http://www.w3.org/1999/02/22-rdf-syntax-ns#type> <http://ex.org/C> .\n'
+               '<http://ex.org/i/1> <http://www.w3.org/1999/02/22-rdf-syntax-ns#type> <http://ex.org/D> .\n'
+               '<http://ex.org/i/2> <http://www.w3.org/1999/02/22-rdf-syntax-ns#type> <http://ex.org/D> .\n')
+
+
+def min_iri_repeat_problems():
+    from shexer.shaper import Shaper
+    sh = Shaper(raw_graph=MIN_IRI_DOC, all_classes_mode=True, detect_minimal_iri=True, namespaces_dict={"http://ex.org/": "ex"})
+    a = sh.shex_graph(string_output=True)
+    b = sh.shex_graph(string_output=True)
+    fresh = Shaper(raw_graph=MIN_IRI_DOC, all_classes_mode=True, detect_minimal_iri=True, namespaces_dict={"http://ex.org/": "ex"}).shex_graph(string_output=True)
+    out = []
+    if a != b or a != fresh:
+        out.append("repeating shex_graph with detect_minimal_iri changes the text:\n%s\n---\n%s" % (a, b))
+    if "[<http://ex.org/i/>~]" not in a or ":C  [" in a:
+        out.append("unexpected stems:\n" + a)
+    return out
+
+
+SEL_DOC2 = SEL_DOC.replace("<http://ex.org/d> <http://www.w3.org/1999/02/22-rdf-syntax-ns#type> <http://ex.org/C> .\n", "")
+
+
+def selectors_two_graphs_problems():
+    """the same selectors on two different graphs in one process, and overlapping items in one shape map."""
+    from shexer.shaper import Shaper
+    ns = {"http://ex.org/": "ex", "http://sh.org/": "sx"}
+    problems = []
+    sm = "{FOCUS a ex:C}@<http://sh.org/A>\n{FOCUS ex:p _}@<http://sh.org/B>"
+    outs = []
+    for doc, want in ((SEL_DOC, ("sx:A   # 2 instances.", "sx:B   # 2 instances.")), (SEL_DOC2, ("sx:A   # 1 instance.", "sx:B   # 2 instances.")),
+                      (SEL_DOC, ("sx:A   # 2 instances.", "sx:B   # 2 instances."))):
+        out = Shaper(raw_graph=doc, shape_map_raw=sm, namespaces_dict=dict(ns), instances_report_mode="abs", remove_empty_shapes=False).shex_graph(string_output=True)
+        for w in want:
+            if w not in out:
+                problems.append("overlapping items / repeated selectors: expected %r in\n%s" % (w, out))
+    return problems
+
+
 def _history_more(name):
+    if name == "selectors-two-graphs":
+        return selectors_two_graphs_problems()
+    if name == "min-iri-repeat":
+        return min_iri_repeat_problems()
     if name == "selectors-fsm":
         return selector_problems("fsm")
     if name == "selectors-json":
